@@ -277,12 +277,12 @@ pub fn exec_raw(q: &mut AnyQ, st: &Step) -> u64 {
             *q = cl;
         }
         Step::CloneFrom { dst } => {
-            let mut d = construct(kind, Ctor::WithHasher);
+            // the queue under test is the destination: a panic in a user Clone leaves IT half done
+            let mut src = construct(kind, Ctor::WithHasher);
             for (key, pr) in mk(dst) {
-                d.push(key, pr);
+                src.push(key, pr);
             }
-            d.clone_from_q(q);
-            *q = d;
+            q.clone_from_q(&src);
         }
         Step::Serde { .. } => {
             let s = q.to_json();
@@ -709,7 +709,9 @@ impl Engine for CrashEngine {
                 let body = CrashBody { cfg: cfg.clone(), prefix: prefix.clone(), fault: fault.clone(), cont: cont.clone() };
                 self.track(&body);
                 let qc = q.clone();
+                let t0 = clock();
                 let out = run_case_on(qc, &fault, &cont, "C10");
+                acc.ticks += clock() - t0;
                 acc.runs += 1;
                 acc.steps += 1 + cont.len() as u64;
                 if let Some(c) = out.fault_class {
